@@ -2,7 +2,7 @@
    (Gen/C06_Src.v) computes the same functions as the hand-written model (Model/C06_Model.v),
    for all arguments, tables and oracles. *)
 From Boltons Require Import Lib.Prelude Lib.PySrc Lib.C06_Text Model.C06_Model Lib.C06_PySrc
-  Gen.C06_Src Proofs.C06_Codec Proofs.C06_Lists.
+  Gen.C06_Src Gen.C06_Gen Proofs.C06_Codec Proofs.C06_Lists.
 Open Scope N_scope.
 
 Section SrcEq.
@@ -320,3 +320,10 @@ Proof.
     cbn [orb andb negb app concat]; rewrite ?app_nil_r, <- ?app_assoc; cbn [app]; rewrite ?app_nil_r, <- ?app_assoc; reflexivity.
 Qed.
 End SrcEq.
+
+(* the four quote maps regenerated from the imported module are what the regenerated body of
+   _make_quote_map builds from the four regenerated *_SAFE sets (closed computation, 4 x 256 entries) *)
+Theorem src_make_quote_map_eq :
+  gen_user_map = src_make_quote_map gen_user_safe /\ gen_path_map = src_make_quote_map gen_path_safe /\
+  gen_query_map = src_make_quote_map gen_query_safe /\ gen_frag_map = src_make_quote_map gen_frag_safe.
+Proof. repeat split; vm_compute; reflexivity. Qed.
